@@ -1,0 +1,20 @@
+//go:build verif
+
+package datapath
+
+import (
+	"net"
+
+	"github.com/vishvananda/netlink"
+)
+
+// VerifDstIPRule exposes the u32 key (offset, value, mask) produced by dstIPRule.
+func VerifDstIPRule(ip *net.IPNet) (int32, uint32, uint32, error) {
+	r, err := dstIPRule(1, ip, 2, netlink.TCA_EGRESS_REDIR)
+	if err != nil {
+		return 0, 0, 0, err
+	}
+	f := r.toU32Filter()
+	k := f.Sel.Keys[0]
+	return k.Off, k.Val, k.Mask, nil
+}
